@@ -247,6 +247,15 @@ def run_shard(shard, tier, acc):
                         names[pos] = grp + (" C" if d else "")
                         acc.count("depth_strings")
                         check_string(sep.join(names), acc)
+        # every catalogue name and two groups with an escaped brace before a braced ' and ', embedded at the start, in the
+        # middle and at the end of long regular lists (thresholds on the length of the whole text)
+        rare = CATALOGUE + ["{Curly \\} Brace and Sons}", "{a \\{ and b} C", "x\\ and y"]
+        for n in (3, 30, 300, 1000):
+            regular = ["Last%d, First%d" % (i, i) for i in range(n)]
+            for r in rare:
+                for pos in (0, n // 2, n):
+                    acc.count("rare_in_long_lists")
+                    check_string(" and ".join(regular[:pos] + [r] + regular[pos:]), acc)
         for n in (10, 100, 1000):
             check_string(" and ".join("Last%d, First%d" % (i, i) for i in range(n)), acc)
             check_string(" and ".join("{Inst %d and Co}" % i for i in range(n)), acc)
